@@ -27,7 +27,7 @@ EpochDay(e) == DaysFromCivil(e.epochYear, 1, 1)
 
 CReset(e) ==
   LET m == Meaning(e.x)  o == e.out IN
-  IF m.kind = "any" THEN [bad |-> FALSE, why |-> "", kind |-> "none"]
+  IF m.kind = "any" THEN [bad |-> FALSE, why |-> "", kind |-> IF o.kind = "panic" THEN "none" ELSE "anyspec"]
   ELSE IF o.kind = "panic" THEN Bad("parse: panic")
   ELSE IF m.kind = "refuse" THEN
        IF o.kind = "error" THEN [bad |-> FALSE, why |-> "", kind |-> "none"]
@@ -66,6 +66,7 @@ Judge(S, rule, ed, zt, e) ==
 
 CNext(c, e, zt) ==
   IF c.kind = "none" THEN c
+  ELSE IF c.kind = "anyspec" THEN IF e.hang THEN Bad("next: hang") ELSE c   \* undocumented but accepted: Next must at least return
   ELSE IF e.hang THEN Bad("next: hang")
   ELSE IF c.kind = "every" THEN
        IF ~e.zero /\ e.r = e.t + c.delay /\ e.rns = 0 THEN c
